@@ -132,11 +132,11 @@ extern int mpt_data_convert_uint8(const uint8_t *from, MPT_TYPE(type) type, void
 			return sizeof(uint16_t);
 		case 'i':
 		case 'u':
-			*((uint32_t *) dest) = val;
+			if (dest) *((uint32_t *) dest) = val;
 			return sizeof(uint32_t);
 		case 'x':
 		case 't':
-			*((uint64_t *) dest) = val;
+			if (dest) *((uint64_t *) dest) = val;
 			return sizeof(uint64_t);
 		
 		case 'f':
